@@ -143,6 +143,42 @@ fn grow_file(c: &Value, variant: u32) -> (SlurmFile, Payload) {
     (file, item)
 }
 
+
+/// A reader that hands out three octets at a time (a file, a socket: nothing promises a parser its input in one piece).
+struct Dribble<'a>(&'a [u8]);
+impl std::io::Read for Dribble<'_> {
+    fn read(&mut self, buf: &mut [u8]) -> std::io::Result<usize> {
+        let n = buf.len().min(3).min(self.0.len());
+        buf[..n].copy_from_slice(&self.0[..n]);
+        self.0 = &self.0[n..];
+        Ok(n)
+    }
+}
+/// Every way the library offers to read a file must tell the same story: FromStr, and from_reader over a whole slice and over a
+/// reader that delivers in pieces.
+fn parse_every_way(text: &str) -> Result<SlurmFile, (String, String)> {
+    let a = SlurmFile::from_str(text).map_err(|e| e.to_string());
+    let b = SlurmFile::from_reader(text.as_bytes()).map_err(|e| e.to_string());
+    let c = SlurmFile::from_reader(Dribble(text.as_bytes())).map_err(|e| e.to_string());
+    match (a, b, c) {
+        (Ok(a), Ok(b), Ok(c)) => if a == b && b == c { Ok(a) } else { Err(("json:routes".into(), format!("from_str and from_reader read different files from {text}"))) },
+        (Err(e), Err(_), Err(_)) => Err(("json:parse".into(), format!("own JSON does not parse: {e}: {text}"))),
+        (a, b, c) => Err(("json:routes".into(), format!("from_str / from_reader / from_reader in pieces disagree: {:?} / {:?} / {:?} on {text}", a.err(), b.err(), c.err()))),
+    }
+}
+/// ... and every way to write one: the writers must produce what the to_string twins produce.
+fn texts_every_way(file: &SlurmFile) -> Result<[String; 2], (String, String)> {
+    let (s1, s2) = (file.to_string(), file.to_string_pretty());
+    let mut w1 = Vec::new();
+    let mut w2 = Vec::new();
+    file.to_writer(&mut w1).map_err(|e| ("json:write".to_string(), e.to_string()))?;
+    file.to_writer_pretty(&mut w2).map_err(|e| ("json:write".to_string(), e.to_string()))?;
+    if w1 != s1.as_bytes() || w2 != s2.as_bytes() {
+        return Err(("json:routes".into(), "to_writer and to_string write different texts".into()));
+    }
+    Ok([s1, s2])
+}
+
 // ---- spec/SlurmAssert.tla: assertion lists grown one assertion at a time
 fn a_asn(v: &Value) -> Asn {
     match v.as_u64().unwrap() { 0 => Asn::from_u32(0), 1 => Asn::from_u32(64496), _ => Asn::from_u32(u32::MAX) }
@@ -207,8 +243,8 @@ fn replay_assert(c: &Value) -> Result<(), (String, String)> {
         return Err(("assert:payload".into(), format!("iter_payload = {got:?}, specification {want:?}")));
     }
     // JSON there and back: an equal file that yields the same items
-    for text in [file.to_string(), file.to_string_pretty()] {
-        let back = SlurmFile::from_str(&text).map_err(|e| ("assert:json:parse".to_string(), format!("own JSON does not parse: {e}: {text}")))?;
+    for text in texts_every_way(&file).map_err(|(k, m)| (format!("assert:{k}"), m))? {
+        let back = parse_every_way(&text).map_err(|(k, m)| (format!("assert:{k}"), m))?;
         if back != file {
             return Err(("assert:json:roundtrip".into(), format!("JSON round trip changed the file: {text}")));
         }
@@ -267,8 +303,8 @@ pub fn replay(args: &[String]) {
                     return Err((format!("drop:{kind}:grown"), format!("the same filters added one at a time through the public fields: drop_payload = {}, specification {exp}", !exp)));
                 }
                 // JSON round trip (compact and pretty)
-                for text in [file.to_string(), file.to_string_pretty()] {
-                    let back = SlurmFile::from_str(&text).map_err(|e| ("json:parse".to_string(), format!("own JSON does not parse: {e}: {text}")))?;
+                for text in texts_every_way(&file)? {
+                    let back = parse_every_way(&text)?;
                     if back != file {
                         return Err(("json:roundtrip".into(), format!("JSON round trip changed the file: {text}")));
                     }
